@@ -2,10 +2,12 @@
    Statements only; each is closed by [exact] of a lemma proved in Resolve/Client_proofs.v.
 
    The model (Resolve/Client.v) is parametric in the semver layer (an [oracle] of the
-   answers of Parse, IsPrerelease, Compare, ParseConstraint, Match) and in the replace
-   branch of AddVersion ([variant]: Current = the code in the tree, FixAssign = the
-   one-token repair versions[i] = v, FixAssignSort = that repair plus SortVersions after a
-   replacement).  The specification is read off the history itself: [last_add ops k] is the
+   answers of Parse, IsPrerelease, Compare, ParseConstraint, Match) and in the [variant] of
+   the code: [v_add] is the replace branch of AddVersion (Current = the code before commit
+   3f7cc9a, FixAssign = the one-token repair versions[i] = v, FixAssignSort = that repair
+   plus SortVersions after a replacement, which is what the tree has now), [v_cfg] the state
+   of match.go (see Properties/C12.v).  The check selects the variant by replaying the
+   recorded witnesses on the Go tree.  The specification is read off the history itself: [last_add ops k] is the
    most recent effective (not deleted-flagged) addition with key k, [mentions o p] says that
    operation o names package p as the package of an added version or of a requirement.
    Histories are arbitrary lists of operations: additions interleaved with the four
@@ -22,12 +24,13 @@ Definition C14_add_full (var : variant) : Prop :=
     ver_lookup (add_version O var c v deps) k =
       if deleted v then ver_lookup c k else if vkey_eqb (v_key v) k then Some v else ver_lookup c k.
 
-Theorem C14_add : forall var, var <> Current -> C14_add_full var.
+Theorem C14_add : forall var, v_add var <> Current -> C14_add_full var.
 Proof. intros var Hv O c v deps k W. exact (ver_lookup_add O var c v deps k Hv W). Qed.
 Print Assumptions C14_add.
 
-(* the code in the tree does not (F-C14-1): the attributes of a repeated key are not replaced *)
-Theorem C14_add_refuted : ~ C14_add_full Current.
+(* the code before the repair (3f7cc9a) did not (F-C14-1): the attributes of a repeated key
+   were not replaced *)
+Theorem C14_add_refuted : forall C, ~ C14_add_full (mkvar Current C).
 Proof. exact add_current_refuted. Qed.
 Print Assumptions C14_add_refuted.
 
@@ -47,18 +50,18 @@ Print Assumptions C14_add_known.
 (* ---------- over all histories ---------- *)
 (* looking up a version returns the attributes of the most recent addition with that key;
    a key never (effectively) added is not found *)
-Theorem C14_version : forall O var ops k, var <> Current ->
+Theorem C14_version : forall O var ops k, v_add var <> Current ->
   version_of (run O var ops) k =
     match last_add ops k with Some (v, _) => Ok v | None => Err ENotFound end.
 Proof. exact run_version_of. Qed.
 Print Assumptions C14_version.
 
-(* false of the code in the tree: a Maven version added twice with different attributes *)
-Theorem C14_version_refuted : forall O, exists ops k v,
-  option_map fst (last_add ops k) = Some v /\ exists w, version_of (run O Current ops) k = Ok w /\ w <> v.
+(* false of the code before the repair: a Maven version added twice with different attributes *)
+Theorem C14_version_refuted : forall O C, exists ops k v,
+  option_map fst (last_add ops k) = Some v /\ exists w, version_of (run O (mkvar Current C) ops) k = Ok w /\ w <> v.
 Proof.
-  intros O. exists w_stale, (v_key w_stale_v2), w_stale_v2.
-  destruct (stale_witness O) as (H1 & H2 & H3). split; [exact H1|]. exists w_stale_v1. split; [exact H2 | exact H3].
+  intros O C. exists w_stale, (v_key w_stale_v2), w_stale_v2.
+  destruct (stale_witness O C) as (H1 & H2 & H3). split; [exact H1|]. exists w_stale_v1. split; [exact H2 | exact H3].
 Qed.
 Print Assumptions C14_version_refuted.
 
@@ -87,7 +90,7 @@ Proof. exact (core_laws _ _ dep_cmp_core). Qed.
 Print Assumptions C14_dep_order_laws.
 
 (* listing a package returns each added (non-deleted) version once ... *)
-Theorem C14_versions_once : forall O var ops p vs, var <> Current ->
+Theorem C14_versions_once : forall O var ops p vs, v_add var <> Current ->
   versions_of (run O var ops) p = Ok vs ->
   NoDup (map v_key vs) /\
   forall v, In v vs <-> (v_pkg v = p /\ option_map fst (last_add ops (v_key v)) = Some v).
@@ -99,17 +102,17 @@ Print Assumptions C14_versions_once.
    full repair, for the other systems with every variant *)
 Theorem C14_versions_sorted : forall O var ops p vs,
   laws_ok O -> Forall (add_parses O) ops ->
-  var = FixAssignSort \/ N.eqb (pk_sys p) sys_npm = false ->
-  versions_of (run O var ops) p = Ok vs -> eco_sorted O (pk_sys p) vs.
+  v_add var = FixAssignSort \/ N.eqb (pk_sys p) sys_npm = false ->
+  versions_of (run O var ops) p = Ok vs -> eco_sorted O var (pk_sys p) vs.
 Proof. exact versions_sorted. Qed.
 Print Assumptions C14_versions_sorted.
 
 (* with the one-token repair alone the npm slice is not re-sorted when a repeated key
    changes its tags: the order is then the one computed for the old tags *)
 Theorem C14_versions_sorted_onetoken_refuted :
-  exists vs, versions_of (run demo_oracle FixAssign w_resort) w_resort_pkg = Ok vs /\
-             sort_versions demo_oracle vs <> vs /\
-             versions_of (run demo_oracle FixAssignSort w_resort) w_resort_pkg = Ok (sort_versions demo_oracle vs).
+  exists vs, versions_of (run demo_oracle (mkvar FixAssign cfg_repaired) w_resort) w_resort_pkg = Ok vs /\
+             sort_versions cfg_repaired demo_oracle vs <> vs /\
+             versions_of (run demo_oracle var_repaired w_resort) w_resort_pkg = Ok (sort_versions cfg_repaired demo_oracle vs).
 Proof. exact resort_witness. Qed.
 Print Assumptions C14_versions_sorted_onetoken_refuted.
 
@@ -124,11 +127,11 @@ Print Assumptions C14_packages_known.
 
 (* anything never added is reported as not found *)
 Theorem C14_not_found : forall O var ops,
-  (forall k, var <> Current -> last_add ops k = None -> version_of (run O var ops) k = Err ENotFound) /\
+  (forall k, v_add var <> Current -> last_add ops k = None -> version_of (run O var ops) k = Err ENotFound) /\
   (forall k, last_add ops k = None -> requirements_of (run O var ops) k = Err ENotFound) /\
   (forall p, versions_of (run O var ops) p = Err ENotFound <-> existsb (fun o => mentions o p) ops = false) /\
   (forall k, versions_of (run O var ops) (vk_pkg k) = Err ENotFound ->
-             matching_versions O (run O var ops) k = Err ENotFound).
+             matching_versions O var (run O var ops) k = Err ENotFound).
 Proof.
   intros O var ops. repeat split.
   - intros k Hv H. rewrite run_version_of, H by auto. reflexivity.
@@ -141,11 +144,11 @@ Qed.
 Print Assumptions C14_not_found.
 
 (* MatchingVersions is MatchRequirement over the package slice (C12 says what that is) *)
-Theorem C14_matching : forall O c k,
-  matching_versions O c k =
+Theorem C14_matching : forall O var c k,
+  matching_versions O var c k =
     match pkg_list c (vk_pkg k) with
     | None => Err ENotFound
-    | Some vs => Ok (match_requirement O k vs)
+    | Some vs => Ok (match_requirement (v_cfg var) O k vs)
     end.
 Proof. exact matching_spec. Qed.
 Print Assumptions C14_matching.
@@ -165,7 +168,7 @@ Print Assumptions C14_wf.
    key whose attributes change), and the conclusion distinguishes the variants. *)
 Example C14_nonvacuous :
   laws_ok demo_oracle /\ Forall (add_parses demo_oracle) w_stale /\
-  version_of (run demo_oracle FixAssignSort w_stale) (v_key w_stale_v2) = Ok w_stale_v2 /\
-  version_of (run demo_oracle FixAssign w_stale) (v_key w_stale_v2) = Ok w_stale_v2 /\
-  version_of (run demo_oracle Current w_stale) (v_key w_stale_v2) = Ok w_stale_v1.
+  version_of (run demo_oracle var_repaired w_stale) (v_key w_stale_v2) = Ok w_stale_v2 /\
+  version_of (run demo_oracle (mkvar FixAssign cfg_old) w_stale) (v_key w_stale_v2) = Ok w_stale_v2 /\
+  version_of (run demo_oracle var_old w_stale) (v_key w_stale_v2) = Ok w_stale_v1.
 Proof. split; [exact demo_laws|]. split; [repeat constructor|]. repeat split. Qed.
